@@ -7,6 +7,7 @@ package mailbox
 // transparently or rejected with an error, never silently truncated.
 
 import (
+	"context"
 	"fmt"
 	"io"
 	"net"
@@ -17,9 +18,14 @@ import (
 
 func init() {
 	simrt.Register(&simrt.Scenario{
-		Prop: "C15", Name: "noise-conns", Count: tiered(1500, 100000),
+		Prop: "C15", Name: "noise-conns", Count: tiered(8000, 100000),
 		Run: c15Noise, MaxOps: 4 << 20, Horizon: time.Hour,
 		Doc: "NoiseGrpcConn over a ProxyConn stub and NoiseConn over a fragmenting stream; writer and reader are separate tasks; write sizes 0..65535 (gRPC variant) / up to 300 KiB (TCP variant); read-buffer sizes 1 B .. 100 KiB incl. sequences that shrink mid-record and straddle the 32 KiB split",
+	})
+	simrt.Register(&simrt.Scenario{
+		Prop: "C15", Name: "connkit-plain", Count: tiered(400, 30000),
+		Run: c15ConnKit, MaxOps: 4 << 20, Horizon: 2 * time.Hour,
+		Doc: "the plain mailbox connections (ClientConn / ServerConn, i.e. connKit over real GBN over the stub relay, no Noise on top): writes of 0..100 kB in both directions incl. empty writes between non-empty ones, read buffers of 1 B .. 100 KiB",
 	})
 	simrt.Register(&simrt.Scenario{
 		Prop: "C15", Name: "oversize-write", Enumerated: true, Count: fixed(8),
@@ -258,4 +264,154 @@ func c15Oversize(rc *simrt.RunCtx) {
 	}
 	rc.Progress()
 	rc.Fault(fmt.Sprintf("oversize-%d-%v", size, tcp))
+}
+
+// c15Exchange writes `writes` on w and reads them back on r with tape-chosen
+// buffer sizes; it reports on done whether everything arrived intact.
+func c15Exchange(rc *simrt.RunCtx, variant, name string, w, r net.Conn, writes [][]byte) chan bool {
+	done := make(chan bool, 1)
+	var want []byte
+	for _, p := range writes {
+		want = append(want, p...)
+	}
+	go func() {
+		for i, p := range writes {
+			n, err := w.Write(p)
+			if err != nil && variant == "connKit" {
+				rc.Probe("c15.connkit-connection-failed-visibly")
+				return
+			}
+			if err != nil {
+				rc.Violate("c15.write", variant+"/write-error", "%s %s: Write #%d of %d bytes failed: %v", variant, name, i, len(p), err)
+				return
+			}
+			if n != len(p) {
+				rc.Violate("c15.write", variant+"/short-write", "%s %s: Write #%d of %d bytes returned n=%d without error", variant, name, i, len(p), n)
+				return
+			}
+		}
+	}()
+	go func() {
+		var got []byte
+		reads := 0
+		for len(got) < len(want) {
+			buf := make([]byte, c15ReadSize(rc))
+			n, err := r.Read(buf)
+			reads++
+			if n < 0 || n > len(buf) {
+				rc.Violate("c15.n>len", variant, "%s %s: Read into a %d-byte buffer returned n=%d (err=%v)", variant, name, len(buf), n, err)
+				done <- false
+				return
+			}
+			got = append(got, buf[:n]...)
+			if err != nil {
+				if err == io.EOF {
+					rc.Violate("c15.spurious-eof", "empty-record", "%s %s: Read returned io.EOF after %d of %d bytes of an intact stream", variant, name, len(got), len(want))
+				} else if variant == "connKit" && hasPrefix(want, got) {
+					// the GBN connection underneath ended (e.g. a duplicated
+					// SYN from the set-up phase arriving in the data phase):
+					// a visible failure, and what was read is a prefix
+					rc.Probe("c15.connkit-connection-failed-visibly")
+				} else {
+					rc.Violate("c15.read-error", variant, "%s %s: Read failed after %d of %d bytes: %v", variant, name, len(got), len(want), err)
+				}
+				done <- false
+				return
+			}
+			if !hasPrefix(want, got) {
+				rc.Violate("c15.bytes-differ", variant, "%s %s: after %d reads the %d bytes read are not a prefix of the %d bytes written (first difference at %d; last buffer %d bytes, n=%d)", variant, name, reads, len(got), len(want), firstDiff(got, want), len(buf), n)
+				done <- false
+				return
+			}
+		}
+		// nothing may follow: a short extra read must time out, not deliver
+		r.SetReadDeadline(time.Now().Add(3 * time.Second))
+		extra := make([]byte, 64)
+		if n, _ := r.Read(extra); n > 0 {
+			rc.Violate("c15.bytes-differ", variant+"/extra-bytes", "%s %s: %d more bytes were delivered after everything written had been read", variant, name, n)
+			done <- false
+			return
+		}
+		rc.ProbeN("c15.reads", reads)
+		done <- true
+	}()
+	return done
+}
+
+func c15ConnKit(rc *simrt.RunCtx) {
+	pr := newPrng(rc.Seed())
+	rl := newRelay(rc, relayFaults{latMin: time.Millisecond, latMax: time.Duration(2+rc.Pick(10, "relay.latmax")) * time.Millisecond})
+	pass := pr.bytes(14)
+	sdata := NewConnData(pr.ecdh(), nil, pass, nil, nil, nil)
+	cdata := NewConnData(pr.ecdh(), nil, pass, nil, nil, nil)
+	srv := newSimServer(rl, sdata)
+	ctx, cancel := context.WithCancel(context.Background())
+	defer cancel()
+	cli := newSimClient(ctx, rl, cdata)
+	type res struct {
+		c   net.Conn
+		err error
+	}
+	sc, cc := make(chan res, 1), make(chan res, 1)
+	go func() { c, err := srv.Accept(); sc <- res{c, err} }()
+	go func() {
+		// usually the server's mailboxes exist before the client dials (a
+		// client that starts first retries "stream not found" every 2 s, in
+		// step with the 2 s GBN handshake timeout, which tends to end the
+		// fresh connection with an unexpected duplicate SYN)
+		time.Sleep(time.Duration(rc.Pick(5, "wl.dial-delay")) * time.Second)
+		c, err := cli.Dial(ctx, "")
+		cc <- res{c, err}
+	}()
+	var sconn, cconn net.Conn
+	for i := 0; i < 2; i++ {
+		select {
+		case r := <-sc:
+			sconn = r.c
+		case r := <-cc:
+			cconn = r.c
+		case <-time.After(2 * time.Minute):
+		}
+	}
+	if sconn == nil || cconn == nil {
+		rc.HarnessError("plain mailbox connection not established over a fault-free relay")
+		srv.Close()
+		return
+	}
+	mk := func(label string, tag uint64) [][]byte {
+		n := 2 + rc.Pick(10, label+".n")
+		var out [][]byte
+		for i := 0; i < n; i++ {
+			var size int
+			switch rc.Pick(6, label+".kind") {
+			case 0, 1:
+				size = 0
+			case 2:
+				size = 1 + rc.Pick(10, label+".s")
+			case 3:
+				size = 1 + rc.Pick(1000, label+".s")
+			case 4:
+				size = 1 + rc.Pick(40000, label+".s")
+			case 5:
+				size = 1 + rc.Pick(100000, label+".s")
+			}
+			out = append(out, marker(tag*1000+uint64(i), size))
+		}
+		// always end with data so that the reader's count is reached
+		return append(out, marker(tag*1000+999, 1+rc.Pick(50, label+".last")))
+	}
+	wa, wb := mk("wa", 1), mk("wb", 2)
+	rc.Sample("plain connKit: client->server writes %v, server->client writes %v", sizesOf(wa, 8), sizesOf(wb, 8))
+	rc.Knob("case", fmt.Sprintf("%v %v", sizesOf(wa, 12), sizesOf(wb, 12)))
+	d1 := c15Exchange(rc, "connKit", "client->server", cconn, sconn, wa)
+	d2 := c15Exchange(rc, "connKit", "server->client", sconn, cconn, wb)
+	ok := <-d1
+	ok = <-d2 && ok
+	if ok {
+		rc.Progress()
+		rc.Fault("connkit-exchange")
+	}
+	cconn.Close()
+	sconn.Close()
+	srv.Close()
 }
